@@ -172,17 +172,22 @@ def _run(mod, pid, tier, t0):
         except (common.LeanError, OSError, TimeoutError):
             raise
         except Exception as ex:
-            # the REAL code raising where the harness did not expect it is a disagreement (the model says it runs);
-            # a crash that never touched the code under test is the machinery's own problem -> exit 2
+            # the correspondence could not be completed. Either the REAL code raised where the model says it runs, or the
+            # instrumentation (observation points patched into the real functions) no longer fits the code as it is now.
+            # Both mean "the tie between model and code is not established on this tree": a broken obligation, followed
+            # by the failing-input search — not a verdict by itself and not an infrastructure failure (Lean / OS / time
+            # limits are, and are re-raised above).
             tb = traceback.extract_tb(ex.__traceback__)
             root = os.path.realpath(common.REPO)
             in_code = [f for f in tb if os.path.realpath(f.filename).startswith(root + os.sep)]
-            if not in_code:
-                raise
             c = Corr("harness-aborted", "n/a")
             c.case("abort", True)
-            c.disagree(input="correspondence run", impl=f"real code raised {type(ex).__name__}: {ex} at {os.path.relpath(in_code[-1].filename, root)}:{in_code[-1].lineno}",
-                       model="no exception")
+            if in_code:
+                what = f"real code raised {type(ex).__name__}: {ex} at {os.path.relpath(in_code[-1].filename, root)}:{in_code[-1].lineno}"
+            else:
+                what = (f"the instrumented run could not be observed ({type(ex).__name__}: {ex} at "
+                        f"{os.path.basename(tb[-1].filename)}:{tb[-1].lineno}) — the observation points no longer fit the code")
+            c.disagree(input="correspondence run", impl=what, model="runs, observable at the modelled points")
             corrs = [c]
         for c in corrs:
             ob(f"correspondence:{c.name}", c.ok,
